@@ -25,9 +25,19 @@ if os.environ.get("VERIF_REPO"):
 
 
 # --------------------------------------------------------------------------- single run
+_FROZEN = False
+
+
 def execute_once(world, prop: str, desc: dict, known: Known | None, collect=True):
     """Execute one description. Returns (ctx, violation-or-None)."""
     ctx = Ctx(prop, known, collect=collect)
+    global _FROZEN
+    if not _FROZEN:
+        # everything imported so far (torch, inferno, the worlds) goes to the permanent generation so that
+        # the gc.collect() calls worlds use as "object death" faults only scan objects created by runs
+        gc.collect()
+        gc.freeze()
+        _FROZEN = True
     was = gc.isenabled()
     gc.disable()
     try:
@@ -304,7 +314,6 @@ def run_batch(prop, spec, tier, verif_seed, runs=None, wall=None, workers=None, 
                 if not _verify_fresh(prop, path, oracle_id):
                     print(f"HARNESS-ERROR property={prop} violation oracle={oracle_id} seed={rec['seed']} "
                           f"did not reproduce in a fresh interpreter (replay kept at {path})")
-                    exit_code = 2 if exit_code != 1 or not reported else exit_code
                     continue
             nops = len(mdesc.get("ops", [])) if isinstance(mdesc.get("ops"), list) else None
             print(f"VIOLATION property={prop} replay={path}")
